@@ -22,6 +22,16 @@ PARTIAL = ("no clause is partial; the CRC clause is relative to the executable m
            "the error is compared by class and PID list, not by text; 'inputs not modified' is a goexec snapshot check only (aliasing)")
 
 
+EXPECT = {}
+
+
+def oracle(c, real, model):
+    exp = EXPECT.get(c.line)
+    if exp is not None and real != exp:
+        return "observed differs from what the Spec-side oracle (spec.filter: missing_of / filtered_sec / spec_repack) requires: " + exp[:300]
+    return None
+
+
 def pid_lists(rng, c, pmt_pid):
     have = [pid for _, pid, _ in c["sec"]["streams"]]
     absent = [p for p in (5, 17, 8000, 8191, 70000, rng.randrange(1, 8192)) if p not in have and p != pmt_pid]
@@ -54,16 +64,17 @@ def gen(rng, tier):
         c["stuffing"] = {"none": 0, "few": rng.randrange(1, 5), "fill": (184 - c["unit_len"] % 184) % 184,
                          "many": rng.randrange(1, 300)}[style]
     payloads = L.ser_payloads(carriers)
-    lines, pids = [], []
+    EXPECT.clear()
+    lines, pids, itemss, spec_req = [], [], [], []
     for c, p in zip(carriers, payloads):
         pid = rng.choice(L.PMT_PID_CHOICES + [rng.randrange(1, 8191)])
         cuts = L.rand_cuts(rng, len(p), set())
         items = L.items_for(rng, p, cuts, pid, interleave=False, tail_other=False)
         lines.append(L.stream_line(pid, items, "ser.pkts"))
-        pids.append(pid)
+        pids.append(pid); itemss.append(items)
     pkt_lists = vlib.run_model(lines)
     out.append(Case("pmt.filter [ ] [ 1 2 ]", kind="no-packets", theorem="C14_filter_no_packets"))
-    for c, p, pl, pid in zip(carriers, payloads, pkt_lists, pids):
+    for c, p, pl, pid, items in zip(carriers, payloads, pkt_lists, pids, itemss):
         pl_req = pl.replace("[", "[ ").replace("]", " ]")
         choices = pid_lists(rng, c, pid)
         if quick:
@@ -73,13 +84,18 @@ def gen(rng, tier):
         for kind, want in keep:
             th = "C14_filter_spec" if kind in ("all", "all-reversed", "one", "subset", "subset-dup", "with-pat-pmt") else \
                  "C14_filter_empty_pids" if kind == "empty" else "C14_filter_errors"
-            out.append(Case("pmt.filter %s %s" % (pl_req, fmt_val(want)), kind="filter-" + kind, theorem=th))
+            line = "pmt.filter %s %s" % (pl_req, fmt_val(want))
+            spec_req.append((line, "spec.filter %d %s %d %s %s" % (c["pf"], fmt_val(L.fmt_section(c["sec"])), pid,
+                                                                  fmt_val(items), fmt_val(want))))
+            out.append(Case(line, kind="filter-" + kind, theorem=th))
         have = [x for _, x, _ in c["sec"]["streams"]]
         for _ in range(2):
             rm = [rng.choice(have + [9, 8000]) for _ in range(rng.randrange(0, 4))]
             qs = have + [9, 0, 8000]
             out.append(Case("pmt.remove %s %s %s" % (hx(p), fmt_val(rm), fmt_val(qs)), kind="remove",
                             theorem="C14_remove_streams"))
+    for (line, _), exp in zip(spec_req, vlib.run_model([r for _, r in spec_req])):
+        EXPECT[line] = exp
     # ---- fidelity: outside the hypotheses
     nf = 25 if quick else 400
     fc = [L.rand_carrier(rng, crc="computed", allow_pre=True) for _ in range(nf)]
